@@ -74,6 +74,12 @@ func sattr(in *In) nfstypes.Sattr3 {
 	if in.SetSz {
 		s.Size = nfstypes.Set_size3{Set_it: true, Size: nfstypes.Size3(in.Size)}
 	}
+	if in.K == "setattr" && in.How&4 != 0 {
+		// mode, uid and gid, which this server accepts and ignores
+		s.Mode = nfstypes.Set_mode3{Set_it: true, Mode: 0o640}
+		s.Uid = nfstypes.Set_uid3{Set_it: true, Uid: 1000}
+		s.Gid = nfstypes.Set_gid3{Set_it: true, Gid: 1000}
+	}
 	if in.SetTm || in.SetMt {
 		s.Mtime = nfstypes.Set_mtime{Set_it: nfstypes.SET_TO_SERVER_TIME}
 	}
@@ -110,9 +116,9 @@ func (r *Rig) call(in *In, out *Out) {
 		}
 	case "setattr":
 		args := nfstypes.SETATTR3args{Object: fh3(in.Obj), New_attributes: sattr(in)}
-		if in.How == 1 {
+		if in.How&3 == 1 {
 			args.Guard = nfstypes.Sattrguard3{Check: true, Obj_ctime: nfstypes.Nfstime3{Seconds: 77, Nseconds: 5}}
-		} else if in.How == 2 {
+		} else if in.How&3 == 2 {
 			args.Guard = nfstypes.Sattrguard3{Check: true}
 		}
 		rep := s.NFSPROC3_SETATTR(args)
